@@ -773,7 +773,7 @@ func (r *vfC03Run) expect(op vfh.Op) (allowed []string, apply func()) {
 		for _, b := range cf.Epb[ep] {
 			if counts[b]+1 > cf.Cap[b] {
 				// the statement wants a refusal; what the code does is judged by the subnet monitor
-				return []string{"other", "nil"}, r.openConnAs(id, unit, ep)
+				return []string{"other", "limit", "nil"}, r.openConnAs(id, unit, ep) // any refusal will do
 			}
 		}
 		own := cf.fits(vfC03Vec{}, unit, cf.lim("conn"), 255)
@@ -945,10 +945,10 @@ func (r *vfC03Run) l1class(clause string, op vfh.Op, refused bool, bad []string)
 	switch {
 	case clause == "sum" && op.Name() == "gc" && r.onlyDirectMemoryCollected(bad):
 		return "sum:gc:scope-holding-only-reserved-memory-collected"
-	case clause == "sum" && op.Name() == "setpeer" && refused && r.lg.objs[op.S("h")].al && !r.refusedBefore[op.S("h")+"|setpeer"] &&
+	case clause == "sum" && op.Name() == "setpeer" && refused && r.lg.objs[op.S("h")].al &&
 		vfC03Subset(bad, []string{"asys", "atrans"}):
-		// the first refused SetPeer of an allow-listed connection left it charged in NO scope (only the
-		// allow-listed scopes lost it, nothing else moved): the open finding; anything else is a new class
+		// a refused SetPeer of an allow-listed connection left it charged in NO scope (only the allow-listed
+		// scopes lost it, nothing else moved): the open finding; anything else is a new class
 		return "reparent:setpeer:refused-transfer-from-allowlisted-scopes"
 	case clause == "sum" && vfC03In([]string{"setpeer", "setprotocol", "setservice"}, op.Name()) && r.refusedBefore[op.S("h")+"|"+op.Name()]:
 		// the same re-parenting call had been refused on this object before: the retry is not charged
